@@ -104,7 +104,7 @@ def source_runner_sched(c, nsim, keep, seed, par=12):
         ok, runs_ = judge_streams(c, events, payload, "%d streams of SourceRunners driven through %s" % (res.get("executed", 0), label), count=False)
         if ok and label.startswith("simulated"):
             c.sample(dict(kind="schedule replayed on a real SourceRunner", schedule=wm_show(behs[0]), stream=runs_[0][1][:16]))
-            if res.get("counters", {}).get("stream_differs_from_model", 0) * 2 > len(behs):
+            if res.get("counters", {}).get("stream_differs_from_model", 0) * 5 > len(behs) * 4:
                 c.errors.append("srsched: %s of %d replayed streams differ from the model's prediction (the gates do not drive the runner as modelled)" %
                                 (res["counters"]["stream_differs_from_model"], len(behs)))
 
